@@ -18,6 +18,16 @@ pub fn decimal_phrase(code: &str, int_phrase: &str, d: &str) -> Option<String> {
     Some(format!("{} {} {}", int_phrase, spell::info(code).sep, frac))
 }
 
+/// English variant: `o` dictated for zero in the fraction, only where every `o` has a digit word next to it
+/// (no two adjacent zeros, not a lone final zero after the separator).
+pub fn decimal_phrase_en_o(int_phrase: &str, d: &str) -> Option<String> {
+    if d.len() < 2 || d.contains("00") || !d.contains('0') || d.starts_with('0') && d.len() < 2 {
+        return None;
+    }
+    let words: Vec<&str> = d.bytes().map(|b| if b == b'0' { "o" } else { spell::info("en").digits[(b - b'0') as usize] }).collect();
+    Some(format!("{} point {}", int_phrase, words.join(" ")))
+}
+
 pub fn judge_case(ls: &LangSet, code: &str, n: u64, d: &str, phrase: &str, cid: usize, f: &[&str; 4], p: &str, q: &str) -> Option<String> {
     let api = ls.api(code);
     let info = spell::info(code);
@@ -121,7 +131,7 @@ pub fn run(ctx: &Ctx) -> Outcome {
                     (0..6).map(|_| rng.pick(&fracs_full)).collect()
                 };
                 for d in picks {
-                    let phrase = match decimal_phrase(code, &int_phrase, d) {
+                    let phrase = match if code == "en" && rng.chance(1, 4) { decimal_phrase_en_o(&int_phrase, d).or_else(|| decimal_phrase(code, &int_phrase, d)) } else { decimal_phrase(code, &int_phrase, d) } {
                         Some(p) => p,
                         None => continue,
                     };
